@@ -1,5 +1,5 @@
 """C05 — `continues` only answers `more`; a `more` iteration ends at the final reply."""
-from vlib.cfg import Cfg, DefUse, Slice, enumerate_paths
+from vlib.cfg import Cfg, DefUse, Slice, enumerate_paths, ref_base
 from vlib.cond import switch_cond, bool_edges
 from vlib.facts import AnchorMissing
 from . import client_common as cc
@@ -12,6 +12,18 @@ def run(cx):
     r1(cx)
     cc.check_next(cx, "C05.R2", "varlink")
     cc.check_recv_protocol(cx, "C05.R2", "varlink")
+
+
+def call_flag_field(cx):
+    """name of the private Call field that carries the `continues` flag: the one CallTrait::set_continues assigns its argument to"""
+    sc = cx.mir.one("varlink", "<Call<'_> as CallTrait>::set_continues")
+    du = DefUse(sc); sl = Slice(sc, du)
+    names = set()
+    for s in sc.stmts():
+        if s.kind == "assign" and s.lhs.p and ref_base(du, s.lhs.l)[0] == 1 and s.lhs.fields() and any(k == "arg" and o == 2 for k, o in sl.origins(s.ops[0])):
+            names.add(s.lhs.fields()[-1])
+    if len(names) != 1: raise AnchorMissing("set_continues: the field that stores the flag (%s)" % sorted(names))
+    return names.pop()
 
 
 def r1(cx, rule="C05.R1"):
@@ -28,15 +40,17 @@ def r1(cx, rule="C05.R1"):
     writes = [t for t in body.calls("=write_all", "=write", "=flush", "=to_string", "=to_writer", "=to_vec")] + helper_calls
     wa = [t for t in body.calls("=write_all", "=write")] + helper_calls
     if not wa: raise AnchorMissing("reply_struct: no write")
-    # switches on self.continues and on wants_more()
+    # switches on self.<continues flag> and on wants_more(); the flag is the field set_continues() stores its argument in
+    flag = call_flag_field(cx)
+    root = lambda l: ref_base(du, l)[0]
     csw = []; wsw = []
     for b in body.blocks:
         if b.cleanup or b.term.kind != "switch": continue
         c = switch_cond(body, du, b.term)
-        if c.kind == "field" and c.place.fields()[-1:] == ["continues"] and c.place.l == 1: csw.append((b.term, c))
+        if c.kind == "field" and c.place.fields()[-1:] == [flag] and root(c.place.l) == 1: csw.append((b.term, c))
         if c.kind == "call" and c.term.callee.name == "wants_more": wsw.append((b.term, c))
     # self.continues is not modified inside reply_struct (so both reads agree)
-    mods = [s for s in body.stmts() if s.kind == "assign" and s.lhs.l == 1 and "continues" in s.lhs.fields()]
+    mods = [s for s in body.stmts() if s.kind == "assign" and s.lhs.p and root(s.lhs.l) == 1 and flag in s.lhs.fields()]
     cx.check(len(csw) >= 1 and len(wsw) == 1 and not mods, rule, "varlink:reply_struct:gate-present", site,
              "reply_struct does not test self.continues and wants_more() (continues tests: %d, wants_more tests: %d, writes to self.continues: %d)" % (len(csw), len(wsw), len(mods)),
              note_ok="%d tests of self.continues, one wants_more() test" % len(csw))
@@ -44,7 +58,7 @@ def r1(cx, rule="C05.R1"):
     wt, wf = bool_edges(*wsw[0])
     ctrue = {bool_edges(t, c)[0][:1] + bool_edges(t, c)[0][2:] for t, c in csw}       # (src, dst)
     cfalse = {bool_edges(t, c)[1][:1] + bool_edges(t, c)[1][2:] for t, c in csw}
-    setc = [s for s in body.stmts() if s.kind == "assign" and s.lhs.l == 2 and s.lhs.fields()[-1:] == ["continues"]]
+    setc = [s for s in body.stmts() if s.kind == "assign" and s.lhs.p and root(s.lhs.l) == 2 and s.lhs.fields()[-1:] == ["continues"]]
     limit = []
     paths = enumerate_paths(cfg, 0, lambda blk: blk.idx == wa[0].bb or blk.term.kind == "return", du=du, on_limit=lambda: limit.append(1))
     if limit: cx.bad(rule, "varlink:reply_struct:path-limit", site, "too many paths")
@@ -65,7 +79,8 @@ def r1(cx, rule="C05.R1"):
     # mismatch returns before anything is serialised or written
     mism = cc.err_variant_blocks(body, "CallContinuesMismatch")
     ser = [t.bb for t in writes]
-    good = bool(mism) and all(m in cfg.reach(wf[2]) for m in mism) and not any(x in cfg.reach(wf[2]) for x in ser) and not any(m in cfg.reach(x) for x in ser for m in mism)
+    after_false = cfg.reach_sens(du, wf)
+    good = bool(mism) and all(m in after_false for m in mism) and not any(x in after_false for x in ser) and not any(m in cfg.reach(x) for x in ser for m in mism)
     cx.check(good, rule, "varlink:reply_struct:mismatch-writes-nothing", site, "CallContinuesMismatch is not returned on the wants_more()==false edge before serialising/writing",
              note_ok="wants_more()==false -> Err(CallContinuesMismatch), nothing serialised")
     # census: Some(true) assigned to a Reply.continues only here; constructors leave it None
@@ -85,7 +100,7 @@ def r1(cx, rule="C05.R1"):
     # set_continues stores its argument
     sc = cx.mir.one("varlink", "<Call<'_> as CallTrait>::set_continues")
     cx.saw(sc)
-    ass = [s for s in sc.stmts() if s.kind == "assign" and s.lhs.l == 1 and s.lhs.fields()[-1:] == ["continues"]]
+    ass = [s for s in sc.stmts() if s.kind == "assign" and s.lhs.p and ref_base(DefUse(sc), s.lhs.l)[0] == 1 and s.lhs.fields()[-1:] == [flag]]
     calls = [t for t in sc.calls()]
     good = len(ass) == 1 and not calls and ass[0].rv == "use" and ass[0].ops[0].place is not None and [k for k, _ in Slice(sc).origins(ass[0].ops[0])] == ["arg"]
     cx.check(good, rule, "varlink:set_continues:stores-argument", sc.sp, "set_continues does not store exactly its argument (the gate in reply_struct would never see the implementation's request)", note_ok="self.continues = cont")
